@@ -194,7 +194,9 @@ def _closed(e):
     if e[0] in ("local", "other", "site"):
         return False
     if e[0] == "closure":
-        return not e[2]       # a closure that captures nothing is a constant
+        # a closure that captures nothing is a constant; one that captures only parameters (or
+        # fields of them) is a value over the parameters
+        return all(_closed(x) for x in e[2] if isinstance(x, tuple))
     if e[0] == "call" and isinstance(e[1], tuple):
         return False
     return all(_closed(x) for x in e if isinstance(x, tuple))
@@ -272,12 +274,25 @@ def _summarise(cb):
         return None
     # only predicates and plain getters: constructors and forwarders keep their identity
     if cb.local_ty(0) != "bool" and e[0] != "field":
-        return None
+        # … except a private view of the receiver: an Option assembled from fields of the
+        # parameters with Option combinators only (`self.filter.filter(|f| ..)`)
+        private = str(cb.raw.get("vis", "")).startswith("Restricted")
+        if not (private and cb.local_ty(0).startswith("core::option::Option<") and e[0] == "call" and _only_option_combinators(e)):
+            return None
     # every call made by the body must be part of the returned value (no side work)
     ncalls = sum(1 for b in cb.normal_blocks() if cb.term(b)["k"] == "call")
     if ncalls != _count_calls(s._def_expr(ds[0], 0)):
         return None
     return (cb.arg_count, e)
+
+
+def _only_option_combinators(e):
+    if not isinstance(e, tuple) or not e:
+        return True
+    if e[0] == "call":
+        if not isinstance(e[1], str) or not re.match(r"^core::option::Option::<&?T>::(filter|zip|or|and|xor|as_ref|as_deref|copied|cloned)$", e[1]):
+            return False
+    return all(_only_option_combinators(x) for x in e if isinstance(x, tuple))
 
 
 def _summarise_predicate(cb):
